@@ -2053,10 +2053,13 @@ def truncate_json_overflow(data):
     elif isinstance(data, collections.abc.Iterable) and not isinstance(data, str):
         # Handle lists, tuples, arrays, etc., but not strings
         return [truncate_json_overflow(item) for item in data]
-    elif isinstance(data, (np.integer, np.floating)):
+    elif isinstance(data, np.integer):
         # NumPy scalars are not instances of int (and only float64 is a float): apply the limits to
         # the equivalent Python number
-        return truncate_json_overflow(data.item())
+        return truncate_json_overflow(int(data))
+    elif isinstance(data, np.floating):
+        # float(), not .item(): numpy hands a longdouble back as a longdouble
+        return truncate_json_overflow(float(data))
     elif isinstance(data, (int, float)) and not (data % 1) and not (1 - 2**53 <= data <= 2**53 - 1):
         return min(max(data, 1 - 2**53), 2**53 - 1)  # Truncate integers to fit in JSON (53 bits max)
     elif isinstance(data, float) and (data < -1.7976e308 or data > 1.7976e308):
